@@ -215,11 +215,27 @@ func capabilityProbes(w *World) *probeRun {
 		ps.RespMode = m
 		p.do(Op{Kind: "Authorize", Client: 1, Params: ps, PolicyAvail: true, Pol: pol})
 	}
-	// code challenge methods
-	for _, m := range []string{"S256", "plain", "S512"} {
-		ps := base("code")
-		ps.Challenge, ps.Method = challengeFor(m)
-		p.do(Op{Kind: "Authorize", Client: 1, Params: ps, PolicyAvail: true, Pol: pol})
+	// code challenge methods, end to end: the authorization request (method named; method left out with
+	// the challenge made for S256 / verbatim, where the server's default decides) and the redemption of
+	// the code with the pre-image and with the challenge string itself
+	{
+		v := verifierPK()
+		hv := PK{Kind: 2, Inner: &v}
+		forms := []struct {
+			ch PK
+			m  string
+		}{{hv, "S256"}, {v, "plain"}, {v, "S512"}, {v, ""}, {hv, ""}}
+		for _, f := range forms {
+			for _, vf := range []PK{v, f.ch} {
+				ps := base("code")
+				ps.Challenge, ps.Method = f.ch, f.m
+				a := p.do(Op{Kind: "Authorize", Client: 1, Params: ps, PolicyAvail: true, Pol: pol})
+				if a.Kind != "Nav" || a.NCode == 0 {
+					break
+				}
+				p.do(Op{Kind: "Token", Grant: "authorization_code", Cred: cred1, Code: a.NCode, Redirect: redirect, Verifier: vf})
+			}
+		}
 	}
 	// pushed requests
 	pr := p.do(Op{Kind: "Par", Cred: cred1, Params: base("code")})
@@ -250,8 +266,8 @@ func capabilityProbes(w *World) *probeRun {
 	return p
 }
 
-const c19Header = `From Verif Require Import Base Scope Types Prog Pop Token Authorize System Config Discovery Required Run.
-From Verif.Corr Require Import C11 C19.
+const c19Header = `From Verif Require Import Base Scope Types Prog Pop Token Authorize System Config Discovery Required Run Monitors.
+From Verif.Corr Require Import C11 C19 C19Pkce.
 Local Open Scope N_scope.
 `
 
@@ -348,6 +364,16 @@ func init() {
 				cfgs = append(cfgs, cfg{"openid", pair, "pair"})
 			}
 		}
+		// PKCE method lists: each method alone, both with either default, optional and required, with and
+		// without pushed requests - the capability probes run every method end to end
+		for _, name := range []string{"WithPKCE", "WithPKCERequired"} {
+			for _, pk := range []Opt{{Name: name, S: "S256"}, {Name: name, S: "plain"}, {Name: name, S: "S256", L: []string{"plain"}}, {Name: name, S: "plain", L: []string{"S256"}}} {
+				for _, extra := range [][]Opt{nil, {{Name: "WithPAR", Z: 60}}, {{Name: "WithRefreshTokenGrant", Z: 600}, {Name: "WithImplicitGrant"}}} {
+					opts := append([]Opt{{Name: "WithScopes", Scopes: serverScopes}, {Name: "WithAuthorizationCodeGrant"}, pk}, extra...)
+					cfgs = append(cfgs, cfg{"openid", opts, "pkce-methods"})
+				}
+			}
+		}
 		// random larger subsets, all profiles, always with some grants so that the probes go deep
 		nrand := ctx.N(60, 2000)
 		for i := 0; i < nrand; i++ {
@@ -392,7 +418,7 @@ func init() {
 			}
 			b.WriteString("Definition cases : list c19case := [" + strings.Join(names, "; ") + "].\n")
 			b.WriteString("Definition corr := Eval vm_compute in map check_c19 cases.\nPrint corr.\n")
-			b.WriteString("Definition mon := Eval vm_compute in map mon_c19 cases.\nPrint mon.\n")
+			b.WriteString("Definition mon := Eval vm_compute in map mon_c19x cases.\nPrint mon.\n")
 			name := fmt.Sprintf("cases_%03d.v", k)
 			if err := os.WriteFile(filepath.Join(ctx.Out, name), []byte(b.String()), 0o644); err != nil {
 				panic(err)
@@ -424,7 +450,7 @@ func init() {
 			ctx.Meta.CaseNotes = append(ctx.Meta.CaseNotes, c.Sys.Note)
 		}
 		ctx.Meta.Distinct = len(seen)
-		ctx.Meta.Rule = "configurations: none, every single option, all pairs of the 22 feature-enabling options, random larger subsets under the three profiles (random path prefix); distinct by (document, served routes, projected answers of the capability probes)"
+		ctx.Meta.Rule = "configurations: none, every single option, all pairs of the 22 feature-enabling options, the PKCE method lists (each method alone, both with either default, optional and required; every method probed end to end: authorization request naming the method or leaving it out, redemption with the pre-image and with the challenge string), random larger subsets under the three profiles (random path prefix); distinct by (document, served routes, projected answers of the capability probes)"
 		jb, _ := json.Marshal(jc)
 		_ = os.WriteFile(filepath.Join(ctx.Out, "cases.json"), jb, 0o644)
 	}})
